@@ -1,12 +1,13 @@
 #!/usr/bin/env python3
 """run every claimed check (quick by default) sequentially; summary at the end"""
 import json, subprocess, sys, time, os
+VERIF = os.path.dirname(os.path.dirname(os.path.abspath(__file__)))
 tier = sys.argv[1] if len(sys.argv) > 1 else "quick"
-ids = sys.argv[2:] or [c["property_id"] for c in json.load(open("/verif/MANIFEST.json"))["checks"]]
+ids = sys.argv[2:] or [c["property_id"] for c in json.load(open(os.path.join(VERIF, "MANIFEST.json")))["checks"]]
 bad = []
 for pid in ids:
     t0 = time.time()
-    p = subprocess.run(["./check", pid, "--tier", tier], cwd="/verif", capture_output=True, text=True)
+    p = subprocess.run(["./check", pid, "--tier", tier], cwd=VERIF, capture_output=True, text=True)
     last = [l for l in p.stdout.strip().splitlines() if l.strip()][-1:] or [""]
     print(f"{pid} exit={p.returncode} {time.time()-t0:.0f}s :: {last[0][:160]}", flush=True)
     for l in p.stdout.splitlines():
